@@ -167,6 +167,23 @@ func runC06(c *Ctx) {
 				moves = append(moves, a)
 				moveName[a.Name] = name
 			}
+			if m.km == "vi-command" && (name == "vi-yank-whole-line" || name == "vi-yank-to") {
+				// the same copies into a named register, replacing ("a) and appending ("A)
+				for _, reg := range []string{"a", "A"} {
+					mos := []string{""}
+					if name == "vi-yank-to" {
+						mos = []string{"w", "y", "$"}
+					}
+					for _, mo := range mos {
+						a := Action{Name: "move:\"" + reg + "+" + name + "+" + mo, Ans: append(Keys("\"", reg), p.Ans...)}
+						if mo != "" {
+							a.Ans = append(a.Ans, Key(mo))
+						}
+						moves = append(moves, a)
+						moveName[a.Name] = "register-" + reg + "+" + name + "+" + mo
+					}
+				}
+			}
 			if name == "vi-yank-to" && m.km == "vi-command" {
 				for _, mo := range c06YankMotions {
 					a := Action{Name: "move:vi-yank-to+" + mo, Ans: append(append([]harness.Answer{}, p.Ans...), Key(mo))}
